@@ -275,6 +275,12 @@ bool Instance::eval(const size_t argc, char* const* argv) {
                 continue;
             }
         }
+        // opcode? (checked before hex, as Value does: 1ADD is an opcode name, not the bytes 0x1add)
+        opcodetype opc = GetOpCode(v);
+        if (opc != OP_INVALIDOPCODE) {
+            script << opc;
+            continue;
+        }
         // hex string?
         if (!(vlen & 1)) {
             std::vector<unsigned char> pushData;
@@ -282,11 +288,6 @@ bool Instance::eval(const size_t argc, char* const* argv) {
                 script << pushData;
                 continue;
             }
-        }
-        opcodetype opc = GetOpCode(v);
-        if (opc != OP_INVALIDOPCODE) {
-            script << opc;
-            continue;
         }
         fprintf(stderr, "error: invalid opcode %s\n", v);
         return false;
